@@ -837,27 +837,31 @@ impl<R: Read> RdbReader<R> {
             .unwrap()
             .as_millis() as u64;
         
-        let ttl = if expiry_ms > now_ms {
-            Some(Duration::from_millis(expiry_ms - now_ms))
-        } else {
-            None // Already expired
-        };
+        if expiry_ms <= now_ms {
+            // The deadline passed while the server was down. Loading the pair with `ttl = None`
+            // would make the key immortal: consume the pair, then remove the key again.
+            let key = self.read_key_value_with_type(storage, db, value_type, None)?;
+            storage.delete(db, &key)?;
+            return Ok(());
+        }
         
-        self.read_key_value_with_type(storage, db, value_type, ttl)
+        let ttl = Some(Duration::from_millis(expiry_ms - now_ms));
+        self.read_key_value_with_type(storage, db, value_type, ttl).map(|_| ())
     }
     
-    /// Read key-value with known type
-    fn read_key_value_with_type(&mut self, storage: &Arc<StorageEngine>, db: usize, value_type: u8, ttl: Option<Duration>) -> Result<()> {
-        match value_type {
+    /// Read key-value with known type; returns the key that was loaded
+    fn read_key_value_with_type(&mut self, storage: &Arc<StorageEngine>, db: usize, value_type: u8, ttl: Option<Duration>) -> Result<Vec<u8>> {
+        let loaded_key = match value_type {
             op if op == RdbOpcode::String as u8 => {
                 let key = self.read_string()?;
                 let value = self.read_string()?;
                 
                 if let Some(ttl) = ttl {
-                    storage.set_string_ex(db, key, value, ttl)?;
+                    storage.set_string_ex(db, key.clone(), value, ttl)?;
                 } else {
-                    storage.set_string(db, key, value)?;
+                    storage.set_string(db, key.clone(), value)?;
                 }
+                key
             }
             op if op == RdbOpcode::ZSet as u8 || op == RdbOpcode::ZSet2 as u8 => {
                 let key = self.read_string()?;
@@ -872,6 +876,7 @@ impl<R: Read> RdbReader<R> {
                 if let Some(ttl) = ttl {
                     storage.expire(db, &key, ttl)?;
                 }
+                key
             }
             op if op == RdbOpcode::List as u8 => {
                 let key = self.read_string()?;
@@ -928,7 +933,7 @@ impl<R: Read> RdbReader<R> {
                         if let Some(ttl) = ttl {
                             storage.expire(db, &key, ttl)?;
                         }
-                        return Ok(());
+                        return Ok(key);
                     } else {
                         // Regular list - first element already read
                         storage.rpush(db, key.clone(), vec![first_element])?;
@@ -946,6 +951,7 @@ impl<R: Read> RdbReader<R> {
                 if let Some(ttl) = ttl {
                     storage.expire(db, &key, ttl)?;
                 }
+                key
             }
             op if op == RdbOpcode::Set as u8 => {
                 let key = self.read_string()?;
@@ -961,6 +967,7 @@ impl<R: Read> RdbReader<R> {
                 if let Some(ttl) = ttl {
                     storage.expire(db, &key, ttl)?;
                 }
+                key
             }
             op if op == RdbOpcode::Hash as u8 => {
                 let key = self.read_string()?;
@@ -978,14 +985,15 @@ impl<R: Read> RdbReader<R> {
                 if let Some(ttl) = ttl {
                     storage.expire(db, &key, ttl)?;
                 }
+                key
             }
             _ => {
                 // Skip unknown types for now
                 return Err(FerrousError::Io(format!("Unknown value type: {}", value_type)));
             }
-        }
+        };
         
-        Ok(())
+        Ok(loaded_key)
     }
     
     /// Read a single byte
